@@ -116,6 +116,44 @@ def symbol_case(ctx, data, cut, do_model=True):
         ctx.sample(dict(case, atoms=len(res[1].parts)), limit=4)
 
 
+def marked_regions(ctx):
+    """line/char atoms of the region BETWEEN marker lines, when multi-byte UTF-8 text (or invalid bytes) comes before or on the
+    marker lines: the atoms are exactly the lines / bytes of the region (model correspondence + structural check)"""
+    from . import c08
+    heads = [b"", b"caf\xc3\xa9 \xe2\x82\xac\n", b"\xf0\x9f\x98\x80\xf0\x9f\x98\x80\r\n", b"\xff\xfe bad\n"]
+    begins = [b"// DDBEGIN\n", b"// d\xc3\xa9but DDBEGIN \xe2\x9c\x93\r\n", b"DDBEGIN\r"]
+    regions = [b"foo;\r\nbar;\r\n", b"a\xc3\xa9b\nc\n", b"x\n\ny\xe2\x80\xa8z\n", b"one line\n"]
+    ends = [b"// DDEND\n", b"// \xc3\xa9nd DDEND\r\ntail \xe2\x82\xac\n", b"DDEND"]
+    for h in heads:
+        for b in begins:
+            for r in regions:
+                for e in ends:
+                    data = h + b + r + e
+                    sp = c08.spec(data)
+                    for kind in ("line", "char"):
+                        res = loaders.real_load(kind, data)
+                        case = dict(mode=kind, data=enc_bytes(data), markers=True)
+                        ctx.expect("load", loaders.load_cmd(kind, data), loaders.enc_load(res), case)
+                        if res[0] != "ok" or sp[0] != "ok":
+                            if res[0] != "ok":
+                                ctx.fail("raises", f"{kind}: load raised {res[1]} on a well-formed marker file", case)
+                            continue
+                        region = sp[2]
+                        t = res[1]
+                        body = b"".join(t.parts)
+                        if kind == "line":
+                            if body != region:
+                                ctx.fail("line-concat", f"line atoms {t.parts!r} of a marker file do not concatenate to its region {region!r}", case)
+                            else:
+                                check_line(ctx, region, t.parts, case)
+                        else:
+                            want = [region[i:i + 1] for i in range(len(region))]
+                            if t.parts != want[:-1] and t.parts != want:
+                                ctx.fail("char-atoms", f"char atoms {t.parts!r} are not the single bytes of the region {region!r}", case)
+                        ctx.bump("marked-regions")
+                        ctx.nontriv("marked", kind, data)
+
+
 def big_files(ctx):
     """files larger than any plausible read buffer: a CR LF pair (and a multi-byte terminator) that straddles a 64 KiB, 128 KiB
     or 1 MiB offset still ends ONE line; structural check only (the atoms are not sent through the model)"""
@@ -268,6 +306,7 @@ def run(ctx) -> int:
         symbol_case(ctx, b"".join(rng.choice(SYM_ALPHA + [b"\xa7", b"\xc2", b"\xff"]) for _ in range(n)),
                     rng.choice([None] + CUSTOM_SETS))
     through_strategies(ctx)
+    marked_regions(ctx)
     big_files(ctx)
     cli_cases(ctx, [b"a;b]c-d^e\\f[g", b";;a]]", b"a\xc2\xa7b;c\xff\x80", b"]a^-b\\;", b"{a:b}=c?d\n[e]"] +
               ([b"".join(rng.choice(SYM_ALPHA) for _ in range(12)) for _ in range(10)] if ctx.thorough else []))
